@@ -227,8 +227,8 @@ def san_signatures(text):
             continue
         m = _UBSAN.search(b)
         if m:
-            msg = re.sub(r"-?\d+", "N", m.group(4))
-            msg = re.sub(r"0x[0-9a-f]+", "P", msg)[:80]
+            msg = re.sub(r"0x[0-9a-fA-F]+", "P", m.group(4))
+            msg = re.sub(r"-?\d+", "N", msg)[:80]
             frames = _lib_frames(b)
             sigs.append("ubsan:%s:%s:%s" % (os.path.basename(m.group(1)), "<-".join(frames[:2]) or "?", msg))
     return sigs
